@@ -31,6 +31,10 @@ def run(chk):
                                                    else {"/", "{", "}", "x", ":", "(", "(?P<n>", ")"}), timeout=1800, keep_lines=False, line_cb=cb)
         chk.expect_holds(res2, "verdict function (long definitions)")
         chk.add_tlc(res2, "all token strings <=5 over a reduced alphabet (variable regexes with groups, named groups)")
+        # optional parts: every bracket structure of up to 7 tokens (middle optionals, several groups, empty groups)
+        res3 = core.run_tlc("MC_Defs", cfg_text=dcfg(7, {"a", "[", "]"}), timeout=1800, keep_lines=False, line_cb=cb)
+        chk.expect_holds(res3, "verdict function (bracket structures)")
+        chk.add_tlc(res3, "all token strings <=7 over {a [ ]}")
     s = core.run_harness(["defs", "replay", out], timeout=3000)
     chk.absorb(s, "defs")
     chk.extra["accepted_by_verdict"] = {k: v for k, v in s.get("info", {}).items()}
